@@ -1733,13 +1733,21 @@ fn justifies(e: &crate::netactors::Exchange, m: usize, r: &ResourceRecord) -> bo
     }
     if path.contains(&r.name) {
         let is_cname = matches!(r.rtype_with_data, RecordTypeWithData::CNAME { .. });
-        // a question for the CNAME itself does not follow it
-        let on_path = if q.qtype == QueryType::Record(RecordType::CNAME) {
-            r.name == q.name
-        } else {
-            true
-        };
-        if on_path && (is_cname || r.rtype_with_data.matches(q.qtype)) {
+        // (C06 does not say that a question for everything follows nothing; C10 does,
+        // and is checked there)
+        let follows = q.qtype != QueryType::Record(RecordType::CNAME);
+        if follows {
+            // the aliases on the path, and records of the asked type where the
+            // path ends: a name on it that the reply gives no alias for
+            // (aliases are followed through the answer section)
+            let is_end = !reply.answers.iter().any(|x| {
+                x.name == r.name && matches!(x.rtype_with_data, RecordTypeWithData::CNAME { .. })
+            });
+            if is_cname || (is_end && r.rtype_with_data.matches(q.qtype)) {
+                return true;
+            }
+        } else if r.name == q.name && r.rtype_with_data.matches(q.qtype) {
+            // a question for the CNAME itself follows nothing
             return true;
         }
     }
@@ -1883,6 +1891,10 @@ fn oracle_c06(plan: &ResolvePlan, obs: &Observations) -> RunResult {
                 let ok = (0..upto).any(|i| {
                     let e = &obs.exchanges[i];
                     e.acceptable()
+                        && e.request.as_ref().and_then(|m| m.questions.first()).is_some_and(|eq| {
+                            // relevant to the question: the SOA of a zone enclosing the name asked
+                            eq.name.is_subdomain_of(&soa.name)
+                        })
                         && e.reply.as_ref().is_some_and(|m| {
                             m.answers.is_empty()
                                 && m.authority
@@ -1920,7 +1932,7 @@ resolve_property!(
     oracle_c06,
     60_000,
     1_000_000,
-    "first a deterministic sweep - each of 24 poison kinds (unrelated owner / off-path alias / alias fan / SOA / wrong type / duplicate in the answer section; NS for a non-ancestor, a shallower or same-depth ancestor, a foreign owner, extra SOA in authority; glue for unnamed hosts and unrelated records in additional; eight kinds of reply that must be discarded whole - wrong ID, QR clear, opcode, question, TC, rcode refused / reserved (6..15) / formerr-servfail-notimp - carrying tagged records) at each of 6 exchange positions of 8 universes (1152 runs) - then random mixtures at random rates. Poison records are uniquely tagged. After every question every cache entry (snapshot hook) and every returned record must be justified by an acceptable reply under rules R0-R4 (DESIGN 4.3), with the delegation depth in use taken from the H5 trace. Non-trivial = poison delivered in an acceptable reply or tagged records in a discarded one; distinct = distinct (exchange sequence, faults, result classes)",
+    "first a deterministic sweep - each of 27 poison kinds (unrelated owner / off-path alias / alias fan / SOA / wrong type / duplicate in the answer section; NS for a non-ancestor, a shallower or same-depth ancestor, a foreign owner, a foreign owner naming the referral's own server, extra SOA in authority; a foreign SOA in a negative reply; the asked type at an alias owner; glue for unnamed hosts and unrelated records in additional; eight kinds of reply that must be discarded whole - wrong ID, QR clear, opcode, question, TC, rcode refused / reserved (6..15) / formerr-servfail-notimp - carrying tagged records) at each of 6 exchange positions of 8 universes (1296 runs) - then random mixtures at random rates. Poison records are uniquely tagged. After every question every cache entry (snapshot hook) and every returned record must be justified by an acceptable reply under rules R0-R4 (DESIGN 4.3), with the delegation depth in use taken from the H5 trace. Non-trivial = poison delivered in an acceptable reply or tagged records in a discarded one; distinct = distinct (exchange sequence, faults, result classes)",
     [
         "the justification rule is the property's sentence, section-agnostic; the code may be stricter",
         "a record of the asked type at any name on the alias path counts as justified (lenient on purpose)",
